@@ -162,7 +162,7 @@ MAIN_OPS = ("reroot_at_midpoint", "reseed_at", "reroot_at_edge", "to_outgroup_po
 
 
 def shapes(n, allow_unif):
-    return [v for v in tg.all_parent_vectors(n)
+    return [v for v in tg.ordered_representatives(tg.all_parent_vectors(n))
             if tg.shape_ok(v, allow_unifurcations=allow_unif, min_leaves=2)]
 
 
